@@ -215,11 +215,17 @@ func TestC05Gate(t *testing.T) {
 	defer o.Close()
 	n := kit.N(1, 4)
 	for i := 0; i < n; i++ {
-		gateRun(o, i)
+		parked := false
+		for attempt := 0; attempt < 3 && !parked; attempt++ {
+			parked = gateRun(o, i)
+		}
+		if !parked {
+			o.Unchecked("c05-gate", "in three runs the progress runner never reached the hook before its function: the gate script did not exercise the late-tick history")
+		}
 	}
 }
 
-func gateRun(o *kit.Out, idx int) {
+func gateRun(o *kit.Out, idx int) bool {
 	var armed, parked, inFinal, released atomic.Bool
 	releaseRunner := make(chan struct{})
 	runnerAtLock := make(chan struct{}, 1)
@@ -227,23 +233,23 @@ func gateRun(o *kit.Out, idx int) {
 	hook.Set(func(p string) {
 		points.Store(p, true)
 		switch {
-		case strings.HasPrefix(p, "Runner.Start.go#") && strings.HasSuffix(p, ":r.runFunction"):
+		case strings.HasSuffix(p, ":r.runFunction"):
 			if armed.Load() && parked.CompareAndSwap(false, true) {
 				select {
 				case <-releaseRunner:
 				case <-time.After(700 * time.Millisecond): // a Stop that waits is blocked meanwhile: give up parking
 				}
 			}
-		case strings.HasPrefix(p, "Result.Teardown#") || strings.HasPrefix(p, "Result.Summary#"):
+		case strings.HasPrefix(p, "Result.Teardown") || strings.HasPrefix(p, "Result.Summary"):
 			inFinal.Store(true)
-		case strings.HasPrefix(p, "Result.SnapshotProgress#") && strings.HasSuffix(p, "r.mu.Lock"):
+		case strings.HasPrefix(p, "Result.SnapshotProgress") && strings.HasSuffix(p, ".Lock"):
 			if released.Load() {
 				select {
 				case runnerAtLock <- struct{}{}:
 				default:
 				}
 			}
-		case strings.HasPrefix(p, "Result.Error#") && strings.HasSuffix(p, "r.mu.RLock"):
+		case strings.HasPrefix(p, "Result.Error") && strings.HasSuffix(p, ".RLock"):
 			if inFinal.Load() && parked.Load() && released.CompareAndSwap(false, true) {
 				close(releaseRunner)
 				select {
@@ -261,7 +267,7 @@ func gateRun(o *kit.Out, idx int) {
 	// the progress runner ticks once per second: arm shortly before the first tick, end the run shortly after it
 	go func() { time.Sleep(850 * time.Millisecond); armed.Store(true) }()
 	cfg := runkit.Config{Mode: "users", Scenario: scenario, Ctx: context.Background(),
-		Opts: options.RunOptions{MaxDuration: 1050 * time.Millisecond, Concurrency: 2, IgnoreDropped: true}}
+		Opts: options.RunOptions{MaxDuration: 1200 * time.Millisecond, Concurrency: 2, IgnoreDropped: true}}
 	out, hung, dump := runkit.DoTimeout(cfg, 8*time.Second)
 	np := 0
 	points.Range(func(_, _ any) bool { np++; return true })
@@ -269,13 +275,17 @@ func gateRun(o *kit.Out, idx int) {
 	o.Stat("gate_runner_parked", parked.Load())
 	if hung {
 		o.Fail("run-wedged-by-late-progress-tick", "Run.Do never returned: a progress tick dispatched after Stop had returned took the result's write lock between the nested read locks of the final rendering: "+dump[:min(len(dump), 2500)])
-		return
+		return true
 	}
 	if out.Err != nil {
 		o.Fail("run-error", fmt.Sprintf("gate run failed: %v", out.Err))
-		return
+		return true
+	}
+	if !parked.Load() {
+		return false
 	}
 	o.Case("c05_ok", []string{"0", "0", "0", "0", "0", kit.Str("gate/late-progress-tick/" + strconv.Itoa(idx))}, "T", "gate", "nt")
+	return true
 }
 
 // Witness of the recorded finding: a config file with a users stage whose iteration does not
